@@ -271,6 +271,18 @@ func (g *declGen) object(fs []string, intField string, item *ItemModel) D {
 	g.depth++
 	defer func() { g.depth-- }()
 	obj := D{}
+	if g.o.Collide && g.t.Chance("decl.collide.pair", 1, 2) {
+		// the same declaration text once as an array child (its xpath is consumed by the array) and
+		// once as an object child at a cursor the array also visited
+		x := g.t.Pick("decl.collide.xpath", "*", "../*", ".", fs[0])
+		d := D{"xpath": x}
+		if g.t.Bool("decl.collide.upper") {
+			d = D{"xpath": x, "custom_func": D{"name": "upper", "args": []interface{}{D{"xpath": "."}}}}
+		}
+		obj["kc_arr"] = D{"array": []interface{}{deepCopy(d)}}
+		cur := g.t.Pick("decl.collide.cursor", ".", fs[0], fs[len(fs)-1])
+		obj["kc_obj"] = D{"xpath": cur, "object": D{"c": deepCopy(d)}}
+	}
 	n := 2 + g.t.Intn("decl.n", 5)
 	for i := 0; i < n; i++ {
 		key := fmt.Sprintf("k%d", i)
